@@ -172,8 +172,15 @@ fn survivors_violation(old: &T, new: &T) -> Option<String> {
     }
     None
 }
-fn distinct_lists(maxlen: usize) -> Vec<Vec<T>> {
-    let pool = vec![S::Mem(1), S::Mem(2), S::Feed(1), S::Delay { len: 1 }, S::Delay { len: 2 }, S::Mem(3)];
+fn fc(v: Vec<T>) -> T { S::FnCall(v.into_iter().map(Box::new).collect()) }
+fn distinct_lists(maxlen: usize) -> Vec<Vec<T>> { distinct_lists_from(maxlen, vec![S::Mem(1), S::Mem(2), S::Feed(1), S::Delay { len: 1 }, S::Delay { len: 2 }, S::Mem(3)]) }
+/// children that are function calls of SIMILAR but pairwise distinct shape (they share leaves, so their pair scores are
+/// positive and larger than the score of an exact leaf pair), next to plain leaves
+fn similar_pool() -> Vec<T> {
+    vec![fc(vec![S::Mem(1), S::Feed(1), S::Delay { len: 1 }]), fc(vec![S::Mem(1), S::Feed(1)]), fc(vec![S::Mem(1), S::Feed(1), S::Mem(2)]),
+         S::Delay { len: 2 }, S::Mem(1), fc(vec![S::Mem(1), S::Feed(1), S::Delay { len: 1 }, S::Mem(1)])]
+}
+fn distinct_lists_from(maxlen: usize, pool: Vec<T>) -> Vec<Vec<T>> {
     let mut out: Vec<Vec<usize>> = vec![vec![]];
     let mut frontier: Vec<Vec<usize>> = vec![vec![]];
     for _ in 0..maxlen {
@@ -275,6 +282,33 @@ fn main() {
                     if let Some(c) = survivors_violation(&o, &n) {
                         println!("FOUND old={} new={} clause={c} tried={tried}", show(&o), show(&n));
                         return;
+                    }
+                }
+            }
+            println!("NONE tried={tried} lists={}", lists.len());
+        }
+        // second unambiguous family: children that are function calls of similar shape (positive pair scores between
+        // DIFFERENT children, larger than the score of an exact leaf pair).  old = P ++ R, new = R ++ F: a prefix is
+        // removed, the rest survives in place, fresh leaves (score 0 against everything) are appended.  The back-track
+        // then meets only true pairs with a positive score, and whether the fresh leaves are inserted before the
+        // survivors are paired is decided by the score table alone.
+        Some("survivors-search-similar") => {
+            let max: usize = args[2].parse().unwrap();
+            let lists = distinct_lists_from(max, similar_pool());
+            let fresh = [vec![S::Delay { len: 7 }], vec![S::Delay { len: 7 }, S::Mem(5)]];
+            let mut tried = 0u64;
+            for l in &lists {
+                for cut in 0..=l.len() {
+                    for f in &fresh {
+                        let r = &l[cut..];
+                        if r.is_empty() { continue; }
+                        let o = fc(l.clone());
+                        let n = fc(r.iter().cloned().chain(f.iter().cloned()).collect());
+                        tried += 1;
+                        if let Some(c) = survivors_violation(&o, &n) {
+                            println!("FOUND old={} new={} clause={c} tried={tried}", show(&o), show(&n));
+                            return;
+                        }
                     }
                 }
             }
